@@ -23,11 +23,20 @@ static void vh_open(void)
     if (r) { vh_use_rng = 1; vh_rng = strtoull(r, 0, 10) * 2654435761ULL + 12345ULL; }
 }
 
+/* own line reader: harnesses may replace fgets()/atof() of the code under test */
+static int vh_getline(char *line, int n, FILE *f)
+{
+    int c, k = 0;
+    while ((c = getc(f)) != EOF) { if (k < n - 1) line[k++] = (char)c; if (c == '\n') break; }
+    line[k] = 0;
+    return k > 0;
+}
+
 static int vh_next(char kind, char *buf, int n)
 {
     char line[256];
     if (!vh_opened) vh_open();
-    while (vh_f && fgets(line, sizeof line, vh_f)) {
+    while (vh_f && vh_getline(line, sizeof line, vh_f)) {
         if (line[0] == kind && line[1] == ' ') { strncpy(buf, line + 2, n - 1); buf[n - 1] = 0; return 1; }
     }
     return 0;
@@ -44,7 +53,7 @@ double vh_double(void)
 {
     char b[128];
     if (!vh_opened) vh_open();
-    if (!vh_use_rng && vh_next('d', b, sizeof b)) return strtod(b, 0);
+    if (!vh_use_rng && vh_next('d', b, sizeof b)) return strtod(b, 0);   /* strtod, not atof: harnesses may stub atof */
     if (vh_use_rng) {
         vh_rng = vh_rng * 6364136223846793005ULL + 1442695040888963407ULL;
         /* small non-zero values with a few fractional bits: generic for polynomial identities */
